@@ -237,32 +237,7 @@ func (w *world) sign(reload bool) error {
 			c.Probe("lifetime of centuries")
 		}
 		signer.Algorithm, _ = verifhook.SigningAlgorithmForPrivateKey(s.leaf.Key, fixtures.ConstReader{B: s.entropy})
-		// record what this signer is about to vouch for
-		for j, e := range b.Exchanges {
-			// (coverage is judged by crypto/x509 on the URL's host name, not by the signer)
-			if can := signer.CanSignForURL(e.Request.URL); can != covers(s.leaf, e.Request.URL) && c.Oracle("C06") {
-				c.Violation("coverage-misjudged", "Signer.CanSignForURL", "CanSignForURL(%q) = %v, the certificate of %s (names %v) says %v", e.Request.URL, can, s.leaf.Name, s.leaf.Hosts, !can)
-			}
-			if !covers(s.leaf, e.Request.URL) {
-				continue
-			}
-			if e.Response.Header.Get("Digest") != "" {
-				// not signable as it stands (the tool skips it); if the library nevertheless signs
-				// it, the exchange-refused / altered-content clauses judge the outcome
-				if _, err := (&bundle.Exchange{Request: e.Request, Response: bundle.Response{Status: e.Response.Status, Header: e.Response.Header.Clone(), Body: e.Response.Body}}).AddPayloadIntegrity(b.Version, s.rs); err != nil {
-					continue
-				}
-			}
-			le := w.lb.Exchanges[w.indexOf(e.Request.URL.String(), j)]
-			if _, dup := w.vouched[le.URL]; dup {
-				continue
-			}
-			hdr := le.Resp.Canon()
-			dg, _ := refmice.Encode(refmice.Draft03, le.Resp.Body, s.rs)
-			hdr["content-encoding"] = "mi-sha256-03"
-			hdr["digest"] = dg
-			w.vouched[le.URL] = vouched{signer: i, status: le.Resp.Status, headers: hdr, body: le.Resp.Body}
-		}
+		w.recordVouched(b, signer, s, i)
 		offerDuplicate = c.Chance("signer.offeredDuplicate", 1, 4)
 		if offerDuplicate {
 			c.Probe("a second representation of a signed URL was offered and refused")
@@ -734,6 +709,11 @@ func TestTamper(t *testing.T) {
 				what = w.byzantine(c, rb, class)
 			}
 			res, _ := w.clientWith(earlier, rb, tm, what, class == "none")
+			if c.Oracle("C06") && res.verifierErr == nil && rb.Signatures != nil && len(rb.Signatures.VouchedSubsets) > 0 &&
+				(what == "sig:sig-bit" || what == "sig:sig-append" || what == "sig:signed-bit" || (what == "sig:swap-sig" && len(rb.Signatures.VouchedSubsets) >= 2)) {
+				// any change to the signature bytes, or to the bytes they sign, must make verification fail
+				c.Violation("altered-signature-accepted", "signature.NewVerifier", "the signatures section was accepted after %s", what)
+			}
 			switch {
 			case res.verifierErr != nil:
 				c.Outcome("verifier-refused")
@@ -1095,17 +1075,24 @@ func signInterleaved(ws []*world) error {
 	return nil
 }
 
-// signStep applies one signer to an evolving bundle (the loop body of sign).
-func (w *world) signStep(b *bundle.Bundle, s signerSpec, i int) error {
-	vu, _ := url.Parse("https://" + s.leaf.Hosts[0] + "/validity")
-	signer, err := signature.NewSigner(b.Version, w.chain(s), s.leaf.Key, vu, time.Unix(s.date, s.dateNs), time.Duration(s.duration)*time.Second)
-	if err != nil {
-		return err
-	}
-	signer.Algorithm, _ = verifhook.SigningAlgorithmForPrivateKey(s.leaf.Key, fixtures.ConstReader{B: s.entropy})
+// recordVouched notes, before signer i is applied, what it is about to vouch for
+// (the model side of one signing step; shared by sign and signStep).
+func (w *world) recordVouched(b *bundle.Bundle, signer *signature.Signer, s signerSpec, i int) {
+	c := w.c
 	for j, e := range b.Exchanges {
-		if !signer.CanSignForURL(e.Request.URL) {
+		// (coverage is judged by crypto/x509 on the URL's host name, not by the signer)
+		if can := signer.CanSignForURL(e.Request.URL); can != covers(s.leaf, e.Request.URL) && c.Oracle("C06") {
+			c.Violation("coverage-misjudged", "Signer.CanSignForURL", "CanSignForURL(%q) = %v, the certificate of %s (names %v) says %v", e.Request.URL, can, s.leaf.Name, s.leaf.Hosts, !can)
+		}
+		if !covers(s.leaf, e.Request.URL) {
 			continue
+		}
+		if e.Response.Header.Get("Digest") != "" {
+			// not signable as it stands (the tool skips it); if the library nevertheless signs
+			// it, the exchange-refused / altered-content clauses judge the outcome
+			if _, err := (&bundle.Exchange{Request: e.Request, Response: bundle.Response{Status: e.Response.Status, Header: e.Response.Header.Clone(), Body: e.Response.Body}}).AddPayloadIntegrity(b.Version, s.rs); err != nil {
+				continue
+			}
 		}
 		le := w.lb.Exchanges[w.indexOf(e.Request.URL.String(), j)]
 		if _, dup := w.vouched[le.URL]; dup {
@@ -1117,5 +1104,16 @@ func (w *world) signStep(b *bundle.Bundle, s signerSpec, i int) error {
 		hdr["digest"] = dg
 		w.vouched[le.URL] = vouched{signer: i, status: le.Resp.Status, headers: hdr, body: le.Resp.Body}
 	}
+}
+
+// signStep applies one signer to an evolving bundle (the loop body of sign).
+func (w *world) signStep(b *bundle.Bundle, s signerSpec, i int) error {
+	vu, _ := url.Parse("https://" + s.leaf.Hosts[0] + "/validity")
+	signer, err := signature.NewSigner(b.Version, w.chain(s), s.leaf.Key, vu, time.Unix(s.date, s.dateNs), time.Duration(s.duration)*time.Second)
+	if err != nil {
+		return err
+	}
+	signer.Algorithm, _ = verifhook.SigningAlgorithmForPrivateKey(s.leaf.Key, fixtures.ConstReader{B: s.entropy})
+	w.recordVouched(b, signer, s, i)
 	return addSignature(b, signer, s.rs)
 }
